@@ -34,7 +34,7 @@ GroupSet(s) ==
          [names : NameLists(Sys), conds : {<<>>}, act : {"allow", "errno", "kill_process"}]
     [] s = "actions" ->    \* C01: every action constant
          [names : {<<0>>}, conds : {<<>>},
-          act : NamedActions \cup {"user_notif", "unnamed"}]
+          act : NamedActions \cup {"user_notif", "unnamed"} \cup DataActions]
     [] s = "rich" ->       \* C03 (i): one rich conditional entry among other entries
          [names : NameLists(Sys),
           conds : {<<>>} \cup {<<Entry(n, l)>> : n \in Sys, l \in ListSet}
@@ -204,13 +204,27 @@ LongOpsPolicies ==
   {Mk("allow", x, << [names |-> <<0>>, conds |-> [j \in 1..k |-> Entry(NSys - 2, OpLists(k)[j])] \o <<Entry(NSys - 1, <<DC(5, "GreaterThan", 7)>>)>>, act |-> "errno"],
                      LG(<<NSys - 3, NSys - 2>>, "kill_process") >>) : x \in {TRUE, FALSE}, k \in {8, 60, 64, 127, 128}}
 
+\* one long list (C03: "any conditions per list"; C06: the meaning does not depend on the size): a list of c conditions (4 instructions
+\* each, so 64 and more make the list's own `noMatch` distance exceed 255) next to short lists of the same syscall, in every order;
+\* the conditional group is the LAST one, so that the instructions in front of the default return are argument checks
+NeList(c, base) == [i \in 1..c |-> [arg |-> i % 6, op |-> "NotEqual", val |-> base + i]]
+LongListShapes(c) ==
+  LET s1 == <<DC(0, "Equal", 1)>>
+      s2 == <<DC(1, "Equal", 2), DC(0, "GreaterThan", 250)>> IN
+  {<<s1, NeList(c, 100)>>, <<NeList(c, 100), s1>>, <<s1, NeList(c, 100), s2>>, <<s1, s2, NeList(c, 100)>>, <<NeList(c, 100), NeList(c, 50)>>, <<NeList(c, 100)>>}
+\* "shortlist" is the same family at small sizes (no program above 255 instructions): C06 compares the two
+LongListPolicies(ns, cs) ==
+  UNION {{Mk("allow", TRUE, << LG(IdxRange(0, n - 1), "kill_process"),
+                               [names |-> <<>>, conds |-> [j \in 1..Len(sh) |-> Entry(NSys - 2, sh[j])] \o <<Entry(NSys - 1, <<DC(5, o, 7)>>)>>, act |-> "errno"] >>) :
+            n \in ns, sh \in LongListShapes(c), o \in {"NotEqual", "Equal"}} : c \in cs}
+
 \* the kernel's limit (C07: every defect-free policy that fits 4096 instructions is accepted): 993 single-condition lists
 \* for one syscall (4 instructions each) in one group plus n names in a second group put the program size at 4090..4101
 LimitPolicies ==
   {Mk("allow", x, << [names |-> <<>>, conds |-> [j \in 1..993 |-> Entry(NSys - 1, EqLists(993, 1)[j])], act |-> "errno"],
                      LG(IdxRange(0, n - 1), "kill_process") >>) : x \in {TRUE}, n \in 90..101}
 
-Explicit(s) == s \in {"defects", "defects2", "long1", "long2", "longconds", "klong", "chain", "deep", "limit", "longdefects", "longops"}
+Explicit(s) == s \in {"defects", "defects2", "long1", "long2", "longconds", "klong", "chain", "deep", "limit", "longdefects", "longops", "longlist", "shortlist"}
 ExplicitPolicies(s) ==
   CASE s = "defects" -> BasePolicies(0) \cup Defective1(0)
     [] s = "defects2" -> BasePolicies(0) \cup Defective1(0) \cup Defective2(0)
@@ -219,6 +233,8 @@ ExplicitPolicies(s) ==
     [] s = "limit" -> LimitPolicies
     [] s = "longdefects" -> LongDefectPolicies
     [] s = "longops" -> LongOpsPolicies
+    [] s = "longlist" -> LongListPolicies({0, 200}, {63, 64, 65, 128})
+    [] s = "shortlist" -> LongListPolicies({0, 3}, {1, 2, 3, 7})
     [] s = "deep" -> DeepPolicies
 
 ---------------------------------------------------------------------------
@@ -236,6 +252,10 @@ EventSeq(s) ==
     [] s = "longops" ->
          SetToSeq({Ev(ar, nr, [a \in 0..5 |-> v]) : ar \in {"own", "other"}, nr \in {0, NSys - 3, NSys - 2, NSys - 1, NSys, X32Bit + NSys - 2},
                                                   v \in {0, 1, 7, 8, 59, 60, 63, 64, 65, 127, 128, 129, 200, 255, 256, 65535}})
+    [] s \in {"longlist", "shortlist"} ->
+         \* all six arguments equal to v; v = 1 satisfies the first short list, 2 none of the short ones, 101..228 break the long list at one place
+         SetToSeq({Ev(ar, nr, [a \in 0..5 |-> v]) : ar \in {"own", "other"}, nr \in {0, NSys - 2, NSys - 1, NSys}, v \in {0, 1, 2, 7, 8, 51, 101, 106, 112, 163, 164, 165, 228, 251}}
+                  \cup {Ev(ar, NSys - 2, [a \in 0..5 |-> IF a = 0 THEN 251 ELSE IF a = 1 THEN 2 ELSE v]) : ar \in {"own"}, v \in {0, 103, 200}})
     [] s = "limit" ->
          SetToSeq({Ev(ar, nr, [a \in 0..5 |-> v]) : ar \in {"own", "other"}, nr \in {0, 89, 90, 95, 101, NSys - 1, NSys, X32Bit + 1}, v \in {0, 2, 500, 994, 995}})
     [] s = "single" ->
